@@ -149,6 +149,44 @@ def gen_models(seed, quick):
         models.append({"vars": [[nm, 0, rng.choice([1, 2])] for nm in names],
                        "constraints": [["cumulative", names, [rng.randint(1, 3) for _ in range(n)], dem, rng.randint(max(dem), sum(dem))]],
                        "family": "cumulative-mixed-demands"})
+    # (e) NESTED shapes: the operators compose, so a reversed-operand / multiplied / subtracted sub-expression can sit under another
+    # multiplier or on the right of a subtraction (`2*(5 - x)`, `y - (3 - x)`, `(4 - x) * -1`); the multiplier in force at an inner node
+    # is the product of everything above it.  Deterministic core over the reversed-operand term c - x, then seeded random trees of depth <= 3.
+    x, y, z = V("x"), V("y"), V("z")
+    for doms in ([(0, 3), (0, 4)], [(1, 3), (-2, 2)], [(1, 4), (1, 4)]):
+        vars_ = [["x", *doms[0]], ["y", *doms[1]]]
+        for op in ("==", "!="):
+            for c in (1, 3, 5):
+                inner = ["sub", K(c), x]
+                for k in (2, -1, 3, 0):
+                    for lhs, rhs in ((["mul", inner, k], ["add", y, K(1)]), (["rmul", k, inner], y), (["add", y, ["mul", inner, k]], K(2)),
+                                     (["mul", ["add", inner, y], k], K(c)), (["mul", ["mul", inner, k], -1], y)):
+                        models.append({"vars": vars_, "constraints": [["rel", op, lhs, rhs]], "family": "nested"})
+                for lhs, rhs in ((["sub", y, inner], K(2)), (["sub", inner, y], K(0)), (["sub", y, ["mul", inner, 2]], K(1)),
+                                 (["sub", K(c), ["sub", y, x]], K(1)), (y, ["sub", x, inner]), (["sub", ["add", y, K(1)], inner], x)):
+                    models.append({"vars": vars_, "constraints": [["rel", op, lhs, rhs]], "family": "nested"})
+
+    def tree(d, names):
+        r = rng.random()
+        if d == 0 or r < 0.2:
+            return V(rng.choice(names))
+        t = tree(d - 1, names)
+        if r < 0.4:
+            return [rng.choice(["add", "sub"]), t, K(rng.choice([-1, 1, 2, 3]))]
+        if r < 0.55:
+            return [rng.choice(["add", "sub"]), K(rng.choice([0, 1, 2, 4])), t]
+        if r < 0.75:
+            return ["mul", t, rng.choice([2, -1, 3, -2, 0])] if rng.random() < 0.5 else ["rmul", rng.choice([2, -1, 3, -2]), t]
+        return [rng.choice(["add", "sub"]), t, tree(d - 1, names)]
+
+    for _ in range(400 if quick else 40000):
+        nv = rng.choice([2, 2, 3])
+        names = ["x", "y", "z"][:nv]
+        vars_ = [[n, *rng.choice(DOMS)] for n in names]
+        cs = [["rel", rng.choice(["==", "!="]), tree(rng.choice([2, 3]), names), tree(rng.choice([0, 1, 2]), names) if rng.random() < 0.7 else K(rng.randint(-2, 4))]]
+        if rng.random() < 0.3:
+            cs.append(["all_different", names])
+        models.append({"vars": vars_, "constraints": cs, "family": "nested"})
     # the unsatisfiable cumulative instance quoted in C02
     models.append({"vars": [[f"c{i}", 0, 3] for i in range(3)], "constraints": [["cumulative", ["c0", "c1", "c2"], [3, 3, 3], [1, 1, 1], 1]], "family": "cumulative-unsat"})
     return models
